@@ -221,8 +221,10 @@ func c12Options(c c12Case, tp *c12TP) ch.Options {
 		ReadTimeout:                  2 * time.Second,
 		OpenTelemetryInstrumentation: c.otel,
 		TracerProvider:               tp,
-		Settings:                     []ch.Setting{ch.SettingInt("max_block_size", 10)},
-		QuotaKey:                     "qk",
+		// built with append, as applications do: spare capacity behind the connection-level settings, one backing array
+		// shared by every connection a pool creates from these options
+		Settings: append(make([]ch.Setting, 0, 8), ch.SettingInt("max_block_size", 10)),
+		QuotaKey: "qk",
 	}
 	if c.logger == 2 {
 		// a logger whose Debug level is enabled: every `c.lg.Check(...)` branch of the library runs
@@ -684,6 +686,7 @@ func c12Pool(c c12Case) string {
 					var s proto.ColStr
 					n := 0
 					err := p.Do(ctx, ch.Query{Body: "c12 seq=PDPDZ rows=3", Result: proto.Results{{Name: "v", Data: &v}, {Name: "s", Data: &s}},
+						Settings: []ch.Setting{ch.SettingInt("max_threads", u+1), ch.SettingInt("max_execution_time", it)},
 						OnResult: func(ctx context.Context, b proto.Block) error { n += v.Rows(); return nil }})
 					if err != nil {
 						if !tolerable(err) {
